@@ -5,7 +5,8 @@
 (* Invariants (C22): mutual exclusion; only the owner nests; the lock is free exactly after the owner's last unlock.           *)
 EXTENDS Naturals, Integers, Sequences, FiniteSets, TLC
 CONSTANTS Procs, Iter, Nest,
-          FreeAfterRelease     \* TRUE: the last unlock() stores m_spin = 0 before it clears m_OwnerId (broken variant)
+          FreeAfterRelease,    \* TRUE: the last unlock() stores m_spin = 0 before it clears m_OwnerId (broken variant)
+          ExchangeAcquire      \* TRUE: seeded change C22b: try_acquire() is m_spin.exchange( 1 ) == 0 instead of CAS( 0 -> 1 )
 NOBODY == 0
 (* --algorithm ReentrantSpin {
 variables spin = 0, owner = NOBODY, inside = {}, depthG = [p \in Procs |-> 0], ok = TRUE;
@@ -20,7 +21,7 @@ K1:     if (owner = self) {                                        \* try_taken_
 K2:       spin := spin + 1;                                        \* m_spin.fetch_add( 1 )
         } else {
 K3:       if (spin = 0) { spin := 1; }                             \* acquire(): CAS( 0 -> 1 )
-          else { goto K3; };                                       \* spin on the word (load; bkoff)
+          else { if (ExchangeAcquire) { spin := 1; }; goto K3; };  \* spin on the word (load; bkoff); the exchange variant overwrites the depth
 K4:       owner := self;                                           \* take( tid )
         };
 K5:     d := d + 1; depthG[self] := d;
@@ -91,8 +92,11 @@ K3(self) == /\ pc[self] = "K3"
             /\ IF spin = 0
                   THEN /\ spin' = 1
                        /\ pc' = [pc EXCEPT ![self] = "K4"]
-                  ELSE /\ pc' = [pc EXCEPT ![self] = "K3"]
-                       /\ spin' = spin
+                  ELSE /\ IF ExchangeAcquire
+                             THEN /\ spin' = 1
+                             ELSE /\ TRUE
+                                  /\ spin' = spin
+                       /\ pc' = [pc EXCEPT ![self] = "K3"]
             /\ UNCHANGED << owner, inside, depthG, ok, it, d, n >>
 
 K4(self) == /\ pc[self] = "K4"
